@@ -112,4 +112,13 @@ theorem Prog.guarded_restores (p : Prog) (m : Nat) (hg : p.Guarded m = true) (s 
     | inl hmem => exact clearAll_mem gs _ m hmem
     | inr hb => exact clearAll_keeps_empty gs _ m (ih hb s hs)
 
+/-- **Hypothesis object for guarded members.**  What `translate/c06_reset.py` establishes syntactically for member `m`
+(`Generated.C06.guardSites`: at every site that can mutate `m` a `CollectionClearGuard` on `m` is declared in the same
+block before the first mutation, and `m` is reachable only through the enumerated accessors) is, in this model: the
+interpreter's code acting on `m` is *some* program `prog` all of whose mutations of `m` are scope-guarded.  The
+correspondence C++ block ↔ `Prog.scope` is the translator's; it is not proved. -/
+structure GuardedCode (m : Nat) where
+  prog : Prog
+  guarded : prog.Guarded m = true
+
 end XalanModel.C06
